@@ -172,3 +172,147 @@ Theorem C05_set_then_file_hash : forall (H : bytes -> bytes) t disk name s,
   file_hash H (set_file_hash t name s) disk name = (set_file_hash t name s, Some s).
 Proof. exact set_then_file_hash. Qed.
 Print Assumptions C05_set_then_file_hash.
+
+From GI Require Import Cache.CacheConc Cache.CacheReent Cache.CacheReentFacts.
+
+(* ---- a lookup made by the source reader of a Put, while that Put is in progress (CacheReent.v): the
+   Reads of the hash pass precede every file operation, the n-th Read of the copy pass precedes the
+   n-th write to the output file.  Lookups leave the files alone, so the Put is not disturbed ... *)
+Theorem C05_lookup_inside_put_transparent : forall (H : bytes -> bytes) id chunks tm c w fs,
+  is_lookup c = true ->
+  fst (put_cb H id chunks tm c w fs) = put H fs id (honest_reader chunks) tm.
+Proof. exact put_cb_transparent. Qed.
+Print Assumptions C05_lookup_inside_put_transparent.
+
+(* ... it succeeds on an arbitrarily damaged store and is followed by exact lookups, whichever lookup
+   its source made at whichever point ... *)
+Theorem C05_lookup_inside_put_get : forall (H : bytes -> bytes),
+  (forall x, length (H x) = hash_size_n) ->
+  forall chunks fs id tm c w,
+  let d := concat chunks in
+  is_lookup c = true ->
+  length id = hash_size_n ->
+  (0 <= tm < int64_lim)%Z -> (Z.of_nat (length d) < int64_lim)%Z ->
+  (forall c0, fs (DatP (H d)) = Some c0 -> H c0 = H d -> c0 = d) ->
+  exists fs',
+    fst (put_cb H id chunks tm c w fs) = (fs', PutOk (H d) (length d)) /\
+    get_bytes H fs' id = Found d (H d) (Z.of_nat (length d)) tm /\
+    get_file fs' id = Found (DatP (H d)) (H d) (Z.of_nat (length d)) tm /\
+    fs' (DatP (H d)) = Some d.
+Proof. exact put_cb_get. Qed.
+Print Assumptions C05_lookup_inside_put_get.
+
+(* ... and what the inner lookup is told is sound whatever the Put has written so far: bytes hash to
+   the reported OutputID, a named file has the reported size *)
+Theorem C05_lookup_inside_put_sound : forall (H : bytes -> bytes) id chunks tm c w fs b,
+  is_lookup c = true ->
+  snd (put_cb H id chunks tm c w fs) = Some b ->
+  match b with
+  | XBytes (Found d out _ _) => H d = out
+  | XFile (Found p out size _) => p = DatP out /\ exists (fs1 : files) (c0 : bytes), fs1 p = Some c0 /\ Z.of_nat (length c0) = size
+  | _ => True
+  end.
+Proof. exact put_cb_inner_sound. Qed.
+Print Assumptions C05_lookup_inside_put_sound.
+
+(* ---- the source as data plus position: Put rewinds before each pass (regenerated flags put_order_ok,
+   copy_commit_ok), so a source handed over at ANY position stores the whole data ... *)
+Theorem C05_put_from_any_position : forall (H : bytes -> bytes),
+  (forall x, length (H x) = hash_size_n) ->
+  forall cut s fs id tm,
+  let d := ms_data s in
+  concat (cut d) = d ->
+  length id = hash_size_n ->
+  (0 <= tm < int64_lim)%Z -> (Z.of_nat (length d) < int64_lim)%Z ->
+  (forall c0, fs (DatP (H d)) = Some c0 -> H c0 = H d -> c0 = d) ->
+  exists fs',
+    put_src H fs id s cut tm = (fs', PutOk (H d) (length d)) /\
+    get_bytes H fs' id = Found d (H d) (Z.of_nat (length d)) tm /\
+    get_file fs' id = Found (DatP (H d)) (H d) (Z.of_nat (length d)) tm /\
+    fs' (DatP (H d)) = Some d.
+Proof. exact put_src_get. Qed.
+Print Assumptions C05_put_from_any_position.
+
+(* ... and the reader a Put has used, left at its end, given to Put again (any id): the whole data again *)
+Theorem C05_put_reader_reuse : forall (H : bytes -> bytes),
+  (forall x, length (H x) = hash_size_n) ->
+  forall cut s fs id tm id' tm',
+  let d := ms_data s in
+  concat (cut d) = d ->
+  length id = hash_size_n -> length id' = hash_size_n ->
+  (0 <= tm < int64_lim)%Z -> (0 <= tm' < int64_lim)%Z -> (Z.of_nat (length d) < int64_lim)%Z ->
+  (forall c0, fs (DatP (H d)) = Some c0 -> H c0 = H d -> c0 = d) ->
+  exists fs' fs'',
+    put_src H fs id s cut tm = (fs', PutOk (H d) (length d)) /\
+    put_src H fs' id' (ms_after_put s) cut tm' = (fs'', PutOk (H d) (length d)) /\
+    get_bytes H fs'' id' = Found d (H d) (Z.of_nat (length d)) tm' /\
+    get_file fs'' id' = Found (DatP (H d)) (H d) (Z.of_nat (length d)) tm'.
+Proof. exact put_src_reuse. Qed.
+Print Assumptions C05_put_reader_reuse.
+
+(* ---- on the source as translated: Gen/CacheSrc.v is made from cache/cache.go by harness/go2coq on
+   every run; Cache/SrcFacts.v proves its segments equal to the codec above *)
+From GI Require Import Lib.GoSem Lib.GoSemSeg Cache.SrcLib Gen.CacheSrc Cache.SrcFacts.
+From GI Require CacheTrim.CacheTrim TxtarWrite.Path.
+
+(* the statements of get between io.ReadFull and c.used, run on the buffer e ++ tail (e = the
+   entrySize bytes read) with any bound >= 21 on the two padding loops: never Panic, never
+   OutOfFuel; return missing(...) iff parse_entry e id = None, else hand on parse_entry's fields *)
+Theorem C05_source_get_parse_eq : forall fuel id err e tail,
+  length e = entry_size_n -> (21 <= fuel)%nat ->
+  src_Cache_get_parse fuel id err (e ++ tail) =
+  Ok match parse_entry e id with
+     | None => Return (mkEntry (go_zero_array HashSize) 0 go_time_zero, true)
+     | Some (out, size, tm) => Normal (false, skipn (entry_size_n - 1) e ++ tail, out, size, tm)
+     end.
+Proof. exact src_get_parse_eq. Qed.
+Print Assumptions C05_source_get_parse_eq.
+
+(* C05_entry_roundtrip on the translated code: what the translated fmt.Sprintf of putIndexEntry
+   writes for (id, out, size, clock) is accepted by the translated parser of get for the same id,
+   with exactly out, size and the clock's UnixNano *)
+Theorem C05_source_entry_roundtrip : forall fuel id out size now err e tail,
+  length id = hash_size_n -> length out = hash_size_n ->
+  (0 <= size < int64_lim)%Z -> (0 <= go_time_UnixNano now < int64_lim)%Z -> (21 <= fuel)%nat ->
+  src_Cache_putIndexEntry_entry id out size now = Ok (Normal e) ->
+  src_Cache_get_parse fuel id err (e ++ tail) =
+    Ok (Normal (false, [NL] ++ tail, out, size, go_time_UnixNano now)).
+Proof. exact src_entry_roundtrip. Qed.
+Print Assumptions C05_source_entry_roundtrip.
+
+(* C05_parse_entry_strict on the translated code: what the translated parser lets through is a
+   well-formed entry for this id *)
+Theorem C05_source_parse_entry_strict : forall fuel id err e tail b r out size tm,
+  length e = entry_size_n -> (21 <= fuel)%nat ->
+  src_Cache_get_parse fuel id err (e ++ tail) = Ok (Normal (b, r, out, size, tm)) ->
+  entry_wf e id out size tm /\ b = false /\ r = skipn (entry_size_n - 1) e ++ tail.
+Proof. exact src_get_parse_strict. Qed.
+Print Assumptions C05_source_parse_entry_strict.
+
+(* ... and it rejects everything the model's parse_entry rejects *)
+Theorem C05_source_parse_entry_rejects : forall fuel id err e tail,
+  length e = entry_size_n -> (21 <= fuel)%nat -> parse_entry e id = None ->
+  src_Cache_get_parse fuel id err (e ++ tail) =
+    Ok (Return (mkEntry (go_zero_array HashSize) 0 go_time_zero, true)).
+Proof. exact src_get_parse_rejects. Qed.
+Print Assumptions C05_source_parse_entry_rejects.
+
+(* the fmt.Sprintf of putIndexEntry as translated is the model's encode_entry *)
+Theorem C05_source_put_entry_eq : forall id out size now,
+  src_Cache_putIndexEntry_entry id out size now = Ok (Normal (encode_entry id out size (go_time_UnixNano now))).
+Proof. exact src_put_entry_eq. Qed.
+Print Assumptions C05_source_put_entry_eq.
+
+(* the final return of get as translated: the decoded fields and time.Unix(0, tm) *)
+Theorem C05_source_get_result : forall buf size tm, (0 <= tm < int64_lim)%Z ->
+  src_Cache_get_result buf size tm = Ok (Return (mkEntry buf size (CacheTrim.time_of_ns tm), false)).
+Proof. exact src_get_result_eq. Qed.
+Print Assumptions C05_source_get_result.
+
+(* fileName as translated: Join(dir, two hex digits of id[0], hex(id) ++ "-" ++ key); the last
+   element is the model's path_name *)
+Theorem C05_source_file_name : forall c b0 idr key,
+  src_Cache_fileName_body c (b0 :: idr) key =
+    Ok (Return (Path.join (Path.join (cache_dir c) (hex [b0])) (hex (b0 :: idr) ++ name_sep ++ key))).
+Proof. exact src_fileName_eq. Qed.
+Print Assumptions C05_source_file_name.
